@@ -532,3 +532,9 @@ def jobs(ctx):
     if ctx.prop in ('C11', 'C16', 'C04'):
         out += mutex_event_jobs(ctx, ['C11', 'C16', 'C04'])
     return out
+
+
+def replay(ctx, res, failed, rec):
+    """real-code witness for the sequential part of C16: every mix of ready / pending futures in one Attach / Consume call, Add / Done by hand, Reset"""
+    from vf.replay import run_driver
+    return run_driver(ctx, 'wait_group.cpp', timeout=60)
